@@ -236,8 +236,8 @@ func verifRingCase(r *vh.Rng, o *vh.Out, id string, hard bool, thorough bool) {
 	b := NewBuffer()
 	g := &verifRingGen{r: r, b: b, o: o}
 	mode := r.Intn(100)
-	if mode >= 90 && !thorough && r.Chance(90) {
-		mode = r.Intn(90) // the 4 MiB histories are expensive: 1% of the quick cases, 10% of the thorough ones
+	if mode >= 90 && ((!thorough && r.Chance(90)) || (thorough && r.Chance(75))) {
+		mode = r.Intn(90) // the 4 MiB histories are expensive for the list-based model: 1% of the quick cases, 2.5% of the thorough ones
 	}
 	switch {
 	case mode < 40: // small ring, aim at the ring end with every offset
@@ -311,7 +311,7 @@ func verifRingCase(r *vh.Rng, o *vh.Out, id string, hard bool, thorough bool) {
 		if r.Chance(20) {
 			lim = r.Pick(1, 2, 3, 5, 10, 50, 300, 1000)
 		}
-		if (thorough && r.Chance(10)) || r.Chance(1) {
+		if (thorough && r.Chance(3)) || r.Chance(1) {
 			lim = 4*1024*1024 + r.Intn(5) - 2 // expensive for the list-based model: rare in the quick tier
 		}
 		g.do(fmt.Sprintf("ls %d", lim))
